@@ -20,38 +20,22 @@ Lemma mp_phd_split pl p a b l :
   | None => False
   end.
 Proof.
-  intros Hd Hl. unfold mp_part_handle_data at 1 2. unfold mp_dup_part in Hd.
-  destruct (mpl_mode pl) eqn:Em.
-  - cbn [mpl_cur]. unfold mp_part_handle_data. cbn [mpl_flags mpl_mode mpl_dpieces mpl_hpieces mpl_pending mpl_bcount mpl_done].
-    rewrite Em.
-    assert (Hdp : (if mp_has c_mp_SEEN_LAST_BOUNDARY (mpl_flags pl) && match mpp_type p with MpUnknown => true | _ => false end
-                   then mp_bb_append (if mp_has c_mp_SEEN_LAST_BOUNDARY (mpl_flags pl) && match mpp_type p with MpUnknown => true | _ => false end
-                                      then mp_bb_append (mpl_dpieces pl) a else mpl_dpieces pl) b
-                   else (if mp_has c_mp_SEEN_LAST_BOUNDARY (mpl_flags pl) && match mpp_type p with MpUnknown => true | _ => false end
-                         then mp_bb_append (mpl_dpieces pl) a else mpl_dpieces pl)) =
-                  (if mp_has c_mp_SEEN_LAST_BOUNDARY (mpl_flags pl) && match mpp_type p with MpUnknown => true | _ => false end
-                   then mp_bb_append (mpl_dpieces pl) (a ++ b) else mpl_dpieces pl)).
-    { destruct (mp_has _ _ && _); [apply mp_bb_append_assoc|reflexivity]. }
-    rewrite Hdp.
-    destruct l.
-    + assert (Hline : match mp_bb_append (mpl_hpieces pl) a with Some h => h ++ b | None => b end =
-                      match mpl_hpieces pl with Some h => h ++ a ++ b | None => a ++ b end).
-      { destruct (mpl_hpieces pl); cbn; [rewrite <- app_assoc|]; reflexivity. }
-      rewrite Hline. reflexivity.
-    + rewrite mp_bb_append_assoc. reflexivity.
-  - destruct (mpp_type p) eqn:Et; cbn [mpl_cur]; unfold mp_part_handle_data;
-      cbn [mpl_flags mpl_mode mpl_dpieces mpl_hpieces mpl_pending mpl_bcount mpl_done mpp_type mp_set_fdata mpp_fdata]; rewrite ?Et;
-      rewrite ?andb_false_r, ?andb_true_r in *; cbn [andb] in *.
-    + rewrite Hd. rewrite mp_bb_append_assoc. reflexivity.
-    + rewrite mp_bb_append_assoc. reflexivity.
-    + cbn. rewrite <- app_assoc. reflexivity.
-    + rewrite mp_bb_append_assoc. reflexivity.
-    + rewrite mp_bb_append_assoc. reflexivity.
+  intros Hd Hl. unfold mp_dup_part in Hd.
+  destruct pl as [fl bc dn cu mo hp pe dp]. cbn [mpl_flags mpl_mode] in Hd.
+  destruct mo; destruct (mp_has c_mp_SEEN_LAST_BOUNDARY fl) eqn:Eh; destruct p as [ty nm fi ct hs va fd];
+    destruct ty; cbn [mpp_type andb] in Hd; try discriminate Hd;
+    unfold mp_part_handle_data;
+    cbn [mpl_flags mpl_mode mpl_dpieces mpl_hpieces mpl_pending mpl_bcount mpl_done mpl_cur mpp_type mpp_fdata mp_set_fdata
+         mpp_name mpp_file mpp_ctype mpp_headers mpp_value];
+    rewrite ?Eh; cbn [andb];
+    try (destruct l; [|rewrite ?mp_bb_append_assoc; reflexivity]);
+    rewrite ?mp_bb_append_assoc, <- ?app_assoc; try reflexivity;
+    try (destruct hp; cbn [mp_bb_append]; rewrite <- ?app_assoc; reflexivity).
 Qed.
 
 Lemma mp_dupb_spec pl :
   mp_dupb pl = match mpl_cur pl with Some p => mp_dup_part (mpl_flags pl) (mpl_mode pl) p | None => false end.
-Proof. unfold mp_dupb, mp_dup_part. destruct (mpl_cur pl); [|apply andb_false_r]. destruct (mpl_mode pl); [apply andb_false_r|reflexivity]. Qed.
+Proof. unfold mp_dupb, mp_dup_part. destruct (mpl_cur pl); [|apply andb_false_r]. destruct (mpl_mode pl); reflexivity. Qed.
 
 Lemma mp_hd_nil pl l : mp_hd pl [] l = pl.
 Proof. reflexivity. Qed.
@@ -68,12 +52,12 @@ Proof.
   - destruct (mpl_bcount pl =? 0).
     + match goal with |- mp_hd (mp_part_handle_data ?pl0 ?p0 _ _) _ _ = _ =>
         pose proof (mp_phd_split pl0 p0 (a0 :: a) (b0 :: b) l) as H end.
-      cbn [mpl_flags mpl_mode mp_dup_part mp_new_part mpp_type] in H. rewrite andb_false_r in H.
+      unfold mp_dup_part in H; cbn [mpl_flags mpl_mode mp_new_part mpp_type] in H. rewrite andb_false_r in H.
       specialize (H eq_refl ltac:(intros _; discriminate)).
       unfold mp_hd. match goal with |- match mpl_cur ?x with _ => _ end = _ => destruct (mpl_cur x) end; [exact H|contradiction].
     + match goal with |- mp_hd (mp_part_handle_data ?pl0 ?p0 _ _) _ _ = _ =>
         pose proof (mp_phd_split pl0 p0 (a0 :: a) (b0 :: b) l) as H end.
-      cbn [mpl_flags mpl_mode mp_dup_part mp_new_part mpp_type] in H. rewrite andb_false_r in H.
+      unfold mp_dup_part in H; cbn [mpl_flags mpl_mode mp_new_part mpp_type] in H. rewrite andb_false_r in H.
       specialize (H eq_refl ltac:(intros _; discriminate)).
       unfold mp_hd. match goal with |- match mpl_cur ?x with _ => _ end = _ => destruct (mpl_cur x) end; [exact H|contradiction].
 Qed.
